@@ -740,6 +740,94 @@ func SparseEndgame(rng *rand.Rand) string {
 	}
 }
 
+// CornerTrade builds positions in which a rook standing on its home corner, castling right intact, can be
+// captured by an enemy rook right now and the capturer can be taken back (by a minor piece, or by a second
+// rook standing between king and corner), the squares between king and corner being empty afterwards: the bookkeeping of the right lost "by capture on the home square"
+// is then all that stands between the king and an impossible castling move.
+func CornerTrade(rng *rand.Rand) string {
+	for {
+		bd := make([]int, 64)
+		sq := func(f, r int) int { return r*8 + f }
+		cf := []int{0, 7}[rng.Intn(2)] // corner file
+		bd[sq(4, 7)] = 14
+		bd[sq(cf, 7)] = 12
+		cr := 8 // q
+		if cf == 7 {
+			cr = 4 // k
+		}
+		if rng.Intn(2) == 0 { // the other rook too
+			bd[sq(7-cf, 7)] = 12
+			cr = 12
+		}
+		// the piece that takes back
+		dir := 1
+		if cf == 7 {
+			dir = -1
+		}
+		if rng.Intn(2) == 0 {
+			// a second rook between king and corner: after the trade it stands on the corner itself
+			bd[sq(cf+(1+rng.Intn(3-cf/7))*dir, 7)] = 12
+		} else if rng.Intn(3) == 0 {
+			k := [][2]int{{cf + dir, 5}, {cf + 2*dir, 6}}[rng.Intn(2)]
+			bd[sq(k[0], k[1])] = 10
+		} else {
+			d := 1 + rng.Intn(4)
+			bd[sq(cf+d*dir, 7-d)] = 11
+		}
+		// the capturing rook on the corner file
+		wr := rng.Intn(6)
+		if bd[sq(cf, wr)] != 0 {
+			continue
+		}
+		bd[sq(cf, wr)] = 4
+		wcr := 0
+		wk := sq(6-rng.Intn(5), 0)
+		if rng.Intn(3) == 0 {
+			wk = sq(4, 0)
+			if wr == 0 {
+				wcr = []int{2, 1}[cf/7]
+			}
+		}
+		if bd[wk] != 0 {
+			continue
+		}
+		bd[wk] = 6
+		// some furniture on the middle files, nothing on the corner file or the back rank
+		for i := rng.Intn(8); i > 0; i-- {
+			f, r := 1+rng.Intn(6), 1+rng.Intn(6)
+			if bd[sq(f, r)] == 0 {
+				bd[sq(f, r)] = []int{1, 9, 1, 9, 2, 10, 3, 5, 13}[rng.Intn(9)]
+			}
+		}
+		// the diagonal of the bishop must stay open
+		open := true
+		for d := 1; d <= 4; d++ {
+			s := sq(cf+d*dir, 7-d)
+			if bd[s] == 11 {
+				break
+			}
+			if bd[s] != 0 {
+				open = false
+			}
+		}
+		if !open || !countsOK(bd) || Attacked(bd, sq(4, 7), 0) {
+			continue
+		}
+		stm := 0
+		if rng.Intn(2) == 0 { // colours swapped
+			nb := make([]int, 64)
+			for s, p := range bd {
+				if p != 0 {
+					nb[(7-s/8)*8+s%8] = p ^ 8
+				}
+			}
+			bd, stm = nb, 1
+			cr, wcr = wcr<<2, cr>>2
+		}
+		return FEN(bd, stm, cr|wcr, -1, rng.Intn(20), 1+rng.Intn(60))
+	}
+}
+
 // BoxedKing builds positions in which the king of the side to move has no safe move, so that the
 // answer of the checkmate / stalemate tests hinges on the other pieces: pawn pushes and captures
 // (edge files included), double-push blocks, pinned defenders, en-passant resolutions.
